@@ -32,7 +32,36 @@ LOCAL_IDIOMS = {
     'then':       '`c.then(|| e)`        == `if c { Some(e) } else { None }`',
     'ok_or_else': '`o.ok_or_else(|| e)`  == `match o { Some(v) => Ok(v), None => Err(e) }`',
     'ok_or':      '`o.ok_or(e)`          == `match o { Some(v) => Ok(v), None => Err(e) }` (e already evaluated)',
+    'unzip':      '`it.unzip()` / `it.multiunzip()` / `it.collect::<(Vec<_>, Vec<_>, ..)>()` == one Vec per tuple position, `for t in it { v0.push(t.0); v1.push(t.1); .. }`',
 }
+
+
+def _vec_tuple_shape(ty):
+    """nested-list shape of a tuple (of tuples ..) of Vecs: '((Vec<u64>, Vec<u64>), Vec<f64>)' -> [[v, v], v]; None for anything else"""
+    el = _tuple_elems(ty)
+    if not el or len(el) < 2: return None
+    out = []
+    for e in el:
+        if e.startswith('std::vec::Vec<'): out.append(e)
+        else:
+            sub = _vec_tuple_shape(e)
+            if sub is None: return None
+            out.append(sub)
+    return out
+
+
+def _tuple_elems(ty):
+    """top-level elements of a tuple type string, or None"""
+    ty = ty.strip()
+    if not (ty.startswith('(') and ty.endswith(')')): return None
+    out = []; depth = 0; cur = ''
+    for i, ch in enumerate(ty[1:-1]):
+        if ch in '(<[': depth += 1
+        elif ch in ')]' or (ch == '>' and ty[i] != '-'): depth -= 1
+        if ch == ',' and depth == 0: out.append(cur.strip()); cur = ''
+        else: cur += ch
+    if cur.strip(): out.append(cur.strip())
+    return out
 _SOME0 = [{'dc': 'Some'}, {'f': '0', 'of': 'std::option::Option::Some'}]
 
 
@@ -73,6 +102,45 @@ def local_form(ctx, body):
                 none = rw.new_block([NZ._agg(dst, 'std::option::Option::None', [], line=line)], {'k': 'goto', 't': after})
                 entry = rw.splice(cd, [NZ._const('()', 'env')], NZ._pl(r), some, span, captures=caps)
                 blk['term'] = {'k': 'switch', 'd': t['args'][0], 'ts': [[0, none]], 'else': entry}
+                hit = True; break
+            shape = _vec_tuple_shape(rw.locals[dst['l']]) if not dst['p'] else None
+            if item in ('unzip', 'multiunzip', 'collect') and re.search(r'iter::Iterator$|Itertools$', (t.get('ri') or {}).get('trait') or '') and shape is not None \
+                    and t['args'] and t['args'][0]['k'] in ('copy', 'move') and not t['args'][0]['pl']['p']:
+                N = NZ.Normalizer(ctx.F, None, True)
+                a = t['args'][0]
+                base, chain = N._walk_chain(rw, a['pl']['l'])
+                N._strip_adaptors(rw, chain)
+                it = rw.new_local('?iter')
+                blk['st'].append(NZ._use(it, a, line))
+                head = rw.new_block(); done = rw.new_block()
+                leaves = []          # (path, collection local)
+                def mk(sh, path):
+                    if isinstance(sh, str):
+                        cl_ = rw.new_local(sh); leaves.append((path, cl_)); return cl_
+                    subs = [mk(x, path + [k]) for k, x in enumerate(sh)]
+                    tl_ = rw.new_local('(?)')
+                    rw.blocks[done]['st'].append(NZ._agg(tl_, 'tuple', [NZ._mv(x) for x in subs], line=line))
+                    return tl_
+                top = [mk(x, [k]) for k, x in enumerate(shape)]
+                cur = bi
+                for path, cl_ in leaves:
+                    nb = rw.new_block()
+                    rw.blocks[cur]['term'] = NZ.mk_call('std::vec::Vec::<T>::new', 'std::vec::Vec::<T>::new', None, 'std::vec::Vec::<T>', 'new', [], cl_, nb, span)
+                    cur = nb
+                rw.goto(cur, head)
+                o, some = N._emit_next(rw, head, it, span, done)
+                entry, last, item_op, cont = N._emit_adaptors(rw, chain, NZ._mv(o, NZ.SOME0), span, head, done)
+                rw.goto(some, entry)
+                il = rw.new_local('(?)')
+                rw.blocks[last]['st'].append(NZ._use(il, item_op, line))
+                cur = last
+                for n_, (path, cl_) in enumerate(leaves):
+                    nxt = cont if n_ == len(leaves) - 1 else rw.new_block()
+                    N._emit_push(rw, cur, cl_, 'Vec', NZ._mv(il, [{'f': str(k), 'of': 'tuple'} for k in path]), span, nxt)
+                    cur = nxt
+                rw.blocks[done]['st'].append(NZ._agg(dst, 'tuple', [NZ._mv(c_) for c_ in top], line=line))
+                rw.goto(done, after)
+                rw.changed = True
                 hit = True; break
             if item in ('ok_or_else', 'ok_or') and re.search(r'option::Option::<', name) and len(t['args']) == 2 and t['args'][0]['k'] in ('copy', 'move'):
                 opt = t['args'][0]['pl']
@@ -175,6 +243,32 @@ def origin_calls(b, operand, depth=28):
 def direct_calls(b, operand, item):
     """calls named `item` that directly produce the value of `operand`, not earlier calls that merely share state"""
     return [c for c in origin_calls(b, operand) if c.item == item]
+
+
+def value_root(b, operand, depth=14):
+    """the local a value was built in: follows plain copies, references, transparent views and a projection out of a tuple built in this
+    body (`let (rows, columns, values) = (v0, v1, v2)`), so the Vec behind `&mut rows` and behind `Quadratic { rows, .. }` is the same local"""
+    if operand['k'] not in ('copy', 'move'): return None
+    l = operand['pl']['l']; projs = _projs(operand['pl'])
+    for _ in range(depth):
+        ds = [d for d in b.defs_of(l) if not (d[0] == 'stmt' and d[2]['dst']['p'])]
+        if len(ds) != 1: return l
+        k, bi, d = ds[0]
+        if k == 'call':
+            nm = d['r'] or d['f']
+            if T.TRANSPARENT_NOCLONE.search(T.strip_generics_tail(nm)) and d['args'] and d['args'][0]['k'] in ('copy', 'move'):
+                l = d['args'][0]['pl']['l']; projs = _projs(d['args'][0]['pl']) + projs; continue
+            return l
+        rv = d['rv']
+        if rv['k'] == 'use' and rv['ops'][0]['k'] in ('copy', 'move'):
+            projs = _projs(rv['ops'][0]['pl']) + projs; l = rv['ops'][0]['pl']['l']; continue
+        if rv['k'] == 'ref':
+            projs = _projs(rv['pl']) + projs; l = rv['pl']['l']; continue
+        if rv['k'] == 'agg' and rv['adt'] == 'tuple' and projs and projs[0][1] == 'tuple' and projs[0][0].isdigit() and int(projs[0][0]) < len(rv['ops']) and rv['ops'][int(projs[0][0])]['k'] in ('copy', 'move'):
+            o = rv['ops'][int(projs[0][0])]
+            projs = _projs(o['pl']) + projs[1:]; l = o['pl']['l']; continue
+        return l
+    return l
 
 
 def innermost_loop(b, bi):
@@ -1497,8 +1591,10 @@ def infinity_rules(ctx, conv):
 
 def half_rules(ctx):
     R = 'C19.convert'
-    tq = ctx.free_fn(R + '.half/anchor', 'qplib::convert::to_quadratic')
-    if tq is None: return
+    tq0 = ctx.free_fn(R + '.half/anchor', 'qplib::convert::to_quadratic')
+    if tq0 is None: return
+    tq = local_form(ctx, tq0)            # `.unzip()` / `.multiunzip()` into (rows, columns, values) as the loop of pushes it stands for
+    HS = local_slicer(ctx) if tq is not tq0 else ctx.S
     cmps = [(bi, st) for bi, st in tq.stmts() if st['rv']['k'] == 'bin' and st['rv']['op'] in ('Eq', 'Ne') and st['rv'].get('ty') in ('usize', 'u64', '&usize')]
     calls = [c for c in tq.calls if c.item in ('eq', 'ne') and 'usize' in c.name]
     diag = None
@@ -1526,11 +1622,11 @@ def half_rules(ctx):
     aggs = find_aggregates(tq, 'v1::Quadratic')
     for bi, st in aggs:
         d = dict(zip(st['rv']['fields'], st['rv']['ops']))
-        roots = {f: T.access_path(tq, d[f], transparent=T.TRANSPARENT_NOCLONE)[1] for f in ('rows', 'columns', 'values')}
+        roots = {f: value_root(tq, d[f]) for f in ('rows', 'columns', 'values')}
         push_roots = {}; push_calls = {}
         for c in tq.calls:
             if c.item == 'push':
-                r = T.access_path(tq, c.args[0], transparent=T.TRANSPARENT_NOCLONE)[1]
+                r = value_root(tq, c.args[0])
                 fs = [f for a, f in T.expr_fields(T.expr(tq, c.args[1], depth=10)) if a == 'tuple']
                 push_roots[r] = fs; push_calls.setdefault(r, []).append(c)
         # every entry of the map gives one element of rows, columns and values: each vector is pushed on every pass of a loop over all entries
@@ -1541,7 +1637,7 @@ def half_rules(ctx):
             if not ps or not los: probs.append('%s is not filled in a loop' % f); continue
             for lo in los:
                 if not T.must_pass(tq, lo[2], {lo[1]}, {c.bb for c in ps if c.bb in lo[4]}): probs.append('a pass of the loop can skip the push to %s' % f)
-                si = ctx.S.slice_operand(tq, lo[0].args[0])
+                si = HS.slice_operand(tq, lo[0].args[0])
                 if 1 not in si.params: probs.append('the loop filling %s does not run over the coefficient map' % f)
                 restr = sorted({x.item for x in si.call_objs if x.item in RESTRICTING and 'Iterator' in (x.trait or '')})
                 if restr: probs.append('the loop filling %s is restricted by %s' % (f, restr))
@@ -1620,8 +1716,8 @@ def terms_rules(ctx):
         if aggs:
             probs = []
             for bi, st in aggs:
-                root = T.access_path(tl, agg_field_operand(st, 'terms'), transparent=T.TRANSPARENT_NOCLONE)[1]
-                ps = [c for c in tl.calls if c.item == 'push' and T.access_path(tl, c.args[0], transparent=T.TRANSPARENT_NOCLONE)[1] == root]
+                root = value_root(tl, agg_field_operand(st, 'terms'))
+                ps = [c for c in tl.calls if c.item == 'push' and value_root(tl, c.args[0]) == root]
                 los = [lo for lo in T.for_loops(tl) if any(c.bb in lo[4] for c in ps)]
                 if not ps or not los: probs.append('Linear.terms is not filled in a loop'); continue
                 for lo in los:
